@@ -161,4 +161,318 @@ theorem run_shape (cmp : Codec) (chunks : List Bytes) :
       · subst hx; exact hm
     · rw [← i3]; simp [stream, hb]
 
+/-! ### positions: `block_offset`, what is already flushed, stream offsets -/
+
+theorem outBytes_append (a b : List Block) : outBytes (a ++ b) = outBytes a + outBytes b := by
+  simp [outBytes]
+
+/-- `m->block_offset` is the number of bytes the flushed blocks occupy -/
+def Off (st : St) : Prop := st.blockOffset = outBytes st.out
+
+/-- `b` was reached from `a` by appending/flushing: blocks flushed earlier are never touched again -/
+def Ext (a b : St) : Prop := ∃ bs, b.out = a.out ++ bs
+
+theorem Ext.refl (a : St) : Ext a a := ⟨[], by simp⟩
+
+theorem Ext.trans {a b c : St} (h1 : Ext a b) (h2 : Ext b c) : Ext a c := by
+  obtain ⟨x, hx⟩ := h1
+  obtain ⟨y, hy⟩ := h2
+  exact ⟨x ++ y, by rw [hy, hx, List.append_assoc]⟩
+
+theorem Ext.take {a b : St} (h : Ext a b) : b.out.take a.out.length = a.out := by
+  obtain ⟨x, hx⟩ := h
+  rw [hx]; simp
+
+theorem flush_off (cmp : Codec) (st : St) (h : Off st) : Off (flush cmp st) := by
+  rcases flush_spec cmp st with ⟨_, h2⟩ | ⟨_, b, _, _, h2⟩
+  · rw [h2]; exact h
+  · rw [h2]; unfold Off at h ⊢; simp only [outBytes_append]; rw [h]; simp [outBytes]; omega
+
+theorem flush_ext (cmp : Codec) (st : St) : Ext st (flush cmp st) := by
+  rcases flush_spec cmp st with ⟨_, h2⟩ | ⟨_, b, _, _, h2⟩
+  · rw [h2]; exact Ext.refl _
+  · rw [h2]; exact ⟨[b], rfl⟩
+
+theorem appendGo_off_ext (cmp : Codec) : ∀ (f : Nat) (st : St) (data : Bytes), Off st →
+    Off (appendGo cmp f st data) ∧ Ext st (appendGo cmp f st data) := by
+  intro f
+  induction f with
+  | zero => intro st data h; exact ⟨h, Ext.refl _⟩
+  | succ f ih =>
+    intro st data h
+    unfold appendGo
+    by_cases hd : data = []
+    · simp only [hd, if_true]; exact ⟨h, Ext.refl _⟩
+    · rw [if_neg hd]
+      by_cases hfull : st.cur.length = metaBlockSize
+      · simp only [hfull, if_true]
+        have ho := flush_off cmp st h
+        have he := flush_ext cmp st
+        generalize flush cmp st = st' at ho he ⊢
+        obtain ⟨r1, r2⟩ := ih { st' with cur := st'.cur ++ data.take (min (metaBlockSize - st'.cur.length) data.length) }
+          (data.drop (min (metaBlockSize - st'.cur.length) data.length)) ho
+        exact ⟨r1, Ext.trans he r2⟩
+      · simp only [hfull, if_false]
+        exact ih { st with cur := st.cur ++ data.take (min (metaBlockSize - st.cur.length) data.length) }
+          (data.drop (min (metaBlockSize - st.cur.length) data.length)) h
+
+theorem append_off_ext (cmp : Codec) (st : St) (data : Bytes) (h : Off st) :
+    Off (append cmp st data) ∧ Ext st (append cmp st data) := by
+  unfold append
+  obtain ⟨h1, h2⟩ := appendGo_off_ext cmp (data.length + 1) st data h
+  simp only
+  split
+  · exact ⟨flush_off cmp _ h1, Ext.trans h2 (flush_ext cmp _)⟩
+  · exact ⟨h1, h2⟩
+
+theorem foldl_append_off_ext (cmp : Codec) : ∀ (chunks : List Bytes) (st : St), Off st →
+    Off (chunks.foldl (append cmp) st) ∧ Ext st (chunks.foldl (append cmp) st) := by
+  intro chunks
+  induction chunks with
+  | nil => intro st h; exact ⟨h, Ext.refl _⟩
+  | cons c cs ih =>
+    intro st h
+    obtain ⟨a1, a2⟩ := append_off_ext cmp st c h
+    obtain ⟨b1, b2⟩ := ih (append cmp st c) a1
+    exact ⟨b1, Ext.trans a2 b2⟩
+
+theorem full_raw_length : ∀ (bs : List Block), (∀ b ∈ bs, b.raw.length = metaBlockSize) →
+    ((bs.map (·.raw)).flatten).length = metaBlockSize * bs.length := by
+  intro bs
+  induction bs with
+  | nil => intro _; simp
+  | cons b bs ih =>
+    intro hb
+    simp only [List.map_cons, List.flatten_cons, List.length_append, List.length_cons]
+    rw [ih (fun x hx => hb x (List.mem_cons_of_mem _ hx)), hb b List.mem_cons_self, Nat.mul_succ]
+    omega
+
+/-- with only full blocks flushed, the stream position determines how many blocks there are -/
+theorem inv_stream_length (cmp : Codec) (st : St) (hi : Inv cmp st) :
+    (stream st).length = metaBlockSize * st.out.length + st.cur.length := by
+  unfold stream
+  rw [List.length_append, full_raw_length st.out hi.full]
+
+/-- a meta writer state between two API calls, reached from a fresh writer -/
+structure WF (cmp : Codec) (st : St) : Prop where
+  inv : Inv cmp st
+  curLt : st.cur.length < metaBlockSize
+  off : Off st
+
+theorem wf_init (cmp : Codec) : WF cmp {} :=
+  ⟨⟨by simp, by simp, by simp⟩, by simpa using mb_pos, by simp [Off, outBytes]⟩
+
+theorem WF.blocks {cmp : Codec} {st : St} (h : WF cmp st) : st.out.length = (stream st).length / metaBlockSize := by
+  rw [inv_stream_length cmp st h.inv]
+  have := h.curLt
+  rw [Nat.mul_add_div mb_pos, Nat.div_eq_of_lt this]; rfl
+
+theorem WF.offset {cmp : Codec} {st : St} (h : WF cmp st) : st.cur.length = (stream st).length % metaBlockSize := by
+  rw [inv_stream_length cmp st h.inv]
+  have := h.curLt
+  rw [Nat.mul_add_mod, Nat.mod_eq_of_lt this]
+
+theorem foldl_append_wf (cmp : Codec) (chunks : List Bytes) (st : St) (h : WF cmp st) :
+    WF cmp (chunks.foldl (append cmp) st) ∧ Ext st (chunks.foldl (append cmp) st) ∧
+      stream (chunks.foldl (append cmp) st) = stream st ++ chunks.flatten := by
+  obtain ⟨a1, a2, a3⟩ := foldl_append_inv cmp chunks st h.inv h.curLt
+  obtain ⟨b1, b2⟩ := foldl_append_off_ext cmp chunks st h.off
+  exact ⟨⟨a1, a2, b1⟩, b2, a3⟩
+
+/-! ### `sqfs_write_table` -/
+
+theorem mb_eq : metaBlockSize = 8192 := rfl
+
+theorem chunksOf_nil (f : Nat) : chunksOf f [] = [] := by
+  cases f <;> simp [chunksOf]
+
+theorem chunksOf_length (f : Nat) : ∀ (data : Bytes), data.length < f →
+    (chunksOf f data).length = (data.length + 8191) / 8192 := by
+  induction f with
+  | zero => intro data h; omega
+  | succ f ih =>
+    intro data h
+    unfold chunksOf
+    by_cases hd : data = []
+    · simp [hd]
+    · rw [if_neg hd]
+      have hl : 0 < data.length := List.length_pos_iff.mpr hd
+      by_cases hs : data.length ≤ 8192
+      · have : data.drop metaBlockSize = [] := by
+          apply List.drop_eq_nil_of_le; rw [mb_eq]; exact hs
+        rw [this, chunksOf_nil]; simp only [List.length_cons, List.length_nil]; omega
+      · simp only [List.length_cons]
+        rw [ih _ (by simp only [List.length_drop, mb_eq]; omega)]
+        simp only [List.length_drop, mb_eq]; omega
+
+theorem chunksOf_spec (f : Nat) : ∀ (data : Bytes), data.length < f →
+    (chunksOf f data).flatten = data ∧
+    ∀ i, i < (chunksOf f data).length → (((chunksOf f data).take i).flatten).length = metaBlockSize * i := by
+  induction f with
+  | zero => intro data h; omega
+  | succ f ih =>
+    intro data h
+    unfold chunksOf
+    by_cases hd : data = []
+    · simp [hd]
+    · rw [if_neg hd]
+      have hl : 0 < data.length := List.length_pos_iff.mpr hd
+      obtain ⟨r1, r2⟩ := ih (data.drop metaBlockSize) (by simp only [List.length_drop, mb_eq]; omega)
+      refine ⟨by simp only [List.flatten_cons, r1, List.take_append_drop], ?_⟩
+      intro i hi
+      cases i with
+      | zero => simp
+      | succ j =>
+        simp only [List.length_cons] at hi
+        have hj : j < (chunksOf f (data.drop metaBlockSize)).length := by omega
+        have hne : data.drop metaBlockSize ≠ [] := by
+          intro he; rw [he, chunksOf_nil] at hj; simp at hj
+        have hlen : metaBlockSize < data.length := by
+          have := List.length_pos_iff.mpr hne
+          simp only [List.length_drop] at this; omega
+        simp only [List.take_succ_cons, List.flatten_cons, List.length_append, List.length_take, r2 j hj]
+        rw [Nat.min_eq_left (Nat.le_of_lt hlen), Nat.mul_succ]; omega
+
+theorem writeTableGo_fst (cmp : Codec) (base : Nat) : ∀ (cs : List Bytes) (st : St) (locs : List Nat),
+    (writeTableGo cmp base cs st locs).1 = cs.foldl (append cmp) st := by
+  intro cs
+  induction cs with
+  | nil => intro st locs; rfl
+  | cons c cs ih => intro st locs; simp only [writeTableGo, List.foldl_cons]; exact ih _ _
+
+theorem writeTableGo_snd (cmp : Codec) (base : Nat) : ∀ (cs : List Bytes) (st : St) (locs : List Nat),
+    (writeTableGo cmp base cs st locs).2 =
+      locs ++ (List.range cs.length).map (fun i => base + outBytes ((cs.take i).foldl (append cmp) st).out) := by
+  intro cs
+  induction cs with
+  | nil => intro st locs; simp [writeTableGo]
+  | cons c cs ih =>
+    intro st locs
+    simp only [writeTableGo]
+    rw [ih, List.length_cons, List.range_succ_eq_map]
+    simp [List.append_assoc]
+
+/--
+`sqfs_write_table`: the location list has one entry per metadata block, there are `ceil(size / 8192)` of them,
+entry `i` is the file offset of the header of block `i` (the file size before the table plus everything blocks
+`0..i-1` occupy), `*start` is the offset directly behind the last block, the blocks unpack to the table and all
+but the last hold exactly 8192 bytes (so table entry `k` of size `e | 8192` is in block `k*e / 8192`).
+-/
+theorem writeTableM_spec (cmp : Codec) (base : Nat) (data : Bytes) :
+    (writeTableM cmp base data).locs.length = (writeTableM cmp base data).blocks.length ∧
+    (writeTableM cmp base data).blocks.length = (data.length + 8191) / 8192 ∧
+    (∀ i, i < (writeTableM cmp base data).locs.length →
+      (writeTableM cmp base data).locs[i]? = some (base + outBytes ((writeTableM cmp base data).blocks.take i))) ∧
+    (writeTableM cmp base data).start = base + outBytes (writeTableM cmp base data).blocks ∧
+    (((writeTableM cmp base data).blocks.map (·.raw)).flatten = data) ∧
+    (∀ i, i + 1 < (writeTableM cmp base data).blocks.length →
+      ((writeTableM cmp base data).blocks[i]?.map (·.raw.length)) = some 8192) := by
+  have hcl := chunksOf_length (data.length + 1) data (by omega)
+  obtain ⟨hflat, htake⟩ := chunksOf_spec (data.length + 1) data (by omega)
+  obtain ⟨fb, last, s1, _, s3, s4, s5, _, s7⟩ := run_shape cmp (chunksOf (data.length + 1) data)
+  have hblocks : (writeTableM cmp base data).blocks = (run cmp (chunksOf (data.length + 1) data)).out := by
+    simp only [writeTableM, writeTableGo_fst]; rfl
+  have hlocs : (writeTableM cmp base data).locs = (List.range (chunksOf (data.length + 1) data).length).map
+      (fun i => base + outBytes (((chunksOf (data.length + 1) data).take i).foldl (append cmp) {}).out) := by
+    simp only [writeTableM, writeTableGo_snd]; simp
+  have hstart : (writeTableM cmp base data).start = base + outBytes (writeTableM cmp base data).blocks := by
+    simp only [writeTableM]
+  -- number of blocks
+  have hraw : ((fb ++ last).map (·.raw)).flatten.length = data.length := by rw [s7, hflat]
+  have hfbl : ((fb.map (·.raw)).flatten).length = 8192 * fb.length := full_raw_length fb s3
+  have hcount : (fb ++ last).length = (data.length + 8191) / 8192 := by
+    rw [List.map_append, List.flatten_append, List.length_append, hfbl] at hraw
+    rcases last with _ | ⟨l, _ | ⟨l2, r⟩⟩
+    · simp at hraw ⊢; omega
+    · have := s5 l List.mem_cons_self
+      simp only [List.map_cons, List.map_nil, List.flatten_cons, List.flatten_nil, List.append_nil] at hraw
+      simp only [List.length_append, List.length_cons, List.length_nil]
+      rw [mb_eq] at this; omega
+    · simp at s4
+  rw [hblocks, s1]
+  refine ⟨by rw [hlocs, hcount, hcl]; simp, hcount, ?_, by rw [hstart, hblocks, s1], s7.trans hflat, ?_⟩
+  · intro i hi
+    rw [hlocs] at hi ⊢
+    simp only [List.length_map, List.length_range] at hi
+    rw [List.getElem?_map, List.getElem?_range hi]
+    simp only [Option.map_some]
+    -- the state before chunk `i`
+    obtain ⟨w1, _, w3⟩ := foldl_append_wf cmp ((chunksOf (data.length + 1) data).take i) {} (wf_init cmp)
+    have hlen : (((chunksOf (data.length + 1) data).take i).foldl (append cmp) {}).out.length = i := by
+      rw [w1.blocks, w3]
+      have hs0 : stream ({} : St) = [] := by simp [stream]
+      rw [hs0, List.nil_append, htake i hi, Nat.mul_div_cancel_left _ mb_pos]
+    -- it is a prefix of the final block list
+    have hext : Ext (((chunksOf (data.length + 1) data).take i).foldl (append cmp) {}) (run cmp (chunksOf (data.length + 1) data)) := by
+      unfold run
+      have hsplit : (chunksOf (data.length + 1) data).foldl (append cmp) {} =
+          ((chunksOf (data.length + 1) data).drop i).foldl (append cmp)
+            (((chunksOf (data.length + 1) data).take i).foldl (append cmp) {}) := by
+        rw [← List.foldl_append, List.take_append_drop]
+      rw [hsplit]
+      exact Ext.trans (foldl_append_off_ext cmp _ _ w1.off).2 (flush_ext cmp _)
+    have := hext.take
+    rw [hlen, s1] at this
+    rw [this]
+  · intro i hi
+    have hi' : i < fb.length := by
+      rcases last with _ | ⟨l, r⟩
+      · simp at hi; omega
+      · simp only [List.length_append, List.length_cons] at hi
+        have : r.length = 0 := by simp only [List.length_cons] at s4; omega
+        omega
+    rw [List.getElem?_append_left hi', List.getElem?_eq_getElem hi']
+    simp only [Option.map_some]
+    rw [s3 _ (List.getElem_mem hi'), mb_eq]
+
+/-! ### the coarser `writeTable` is `writeTableM` at base 0 -/
+
+theorem outBytes_cons (b : Block) (bs : List Block) : outBytes (b :: bs) = b.stored.length + 2 + outBytes bs := by
+  simp [outBytes]
+
+theorem locs_foldl : ∀ (bs : List Block) (acc : List Nat) (n : Nat),
+    bs.foldl (fun (a : List Nat × Nat) b => (a.1 ++ [a.2], a.2 + 2 + b.stored.length)) (acc, n) =
+      (acc ++ (List.range bs.length).map (fun i => n + outBytes (bs.take i)), n + outBytes bs) := by
+  intro bs
+  induction bs with
+  | nil => intro acc n; simp [outBytes]
+  | cons b bs ih =>
+    intro acc n
+    simp only [List.foldl_cons]
+    rw [ih, List.length_cons, List.range_succ_eq_map]
+    refine Prod.ext ?_ ?_
+    · show acc ++ [n] ++ _ = acc ++ _
+      rw [List.append_assoc]
+      congr 1
+      simp only [List.singleton_append, List.map_cons, List.map_map, List.take_zero]
+      congr 1
+      apply List.map_congr_left
+      intro i _
+      simp only [Function.comp, List.take_succ_cons, outBytes_cons]
+      omega
+    · simp only [outBytes_cons]; omega
+
+/-- the first model of `sqfs_write_table` (locations recomputed from the block list, relative to the table) gives the
+blocks and locations of `writeTableM` for a file that is empty before the call -/
+theorem writeTable_eq_writeTableM (cmp : Codec) (data : Bytes) :
+    writeTable cmp data = ((writeTableM cmp 0 data).blocks, (writeTableM cmp 0 data).locs) := by
+  obtain ⟨h1, _, h3, _⟩ := writeTableM_spec cmp 0 data
+  have hb : (writeTableM cmp 0 data).blocks = (run cmp (chunksOf (data.length + 1) data)).out := by
+    simp only [writeTableM, writeTableGo_fst]; rfl
+  unfold writeTable
+  simp only
+  rw [locs_foldl]
+  refine Prod.ext hb.symm ?_
+  simp only [List.nil_append, Nat.zero_add]
+  apply List.ext_getElem?
+  intro i
+  by_cases hi : i < (writeTableM cmp 0 data).locs.length
+  · rw [h3 i hi, Nat.zero_add, hb]
+    rw [h1, hb] at hi
+    rw [List.getElem?_map, List.getElem?_range hi]
+    rfl
+  · have hi' : (run cmp (chunksOf (data.length + 1) data)).out.length ≤ i := by rw [h1, hb] at hi; omega
+    rw [List.getElem?_eq_none (by rw [List.length_map, List.length_range]; exact hi'),
+      List.getElem?_eq_none (by rw [h1, hb]; exact hi')]
+
 end Sqfs.MetaWriter
